@@ -472,6 +472,20 @@ func c01r2(w *World, rr *RuleRun) {
 	for _, f := range scope {
 		w.CheckBounds(rr, f)
 	}
+	// the handlers work on the decoded message, whose strings and lists are as long as the sender
+	// made them: the same obligations hold in the query handler and its closures (the statistics
+	// goroutine included - a panic there is outside every recover)
+	inScope := map[*ssa.Function]bool{}
+	for _, f := range scope {
+		inScope[f] = true
+	}
+	hq := w.P.Func("(*Server).handleQuery")
+	for _, f := range append([]*ssa.Function{hq}, allAnon(hq)...) {
+		if !inScope[f] {
+			inScope[f] = true
+			w.CheckBounds(rr, f)
+		}
+	}
 	w.checkFixedWidthAccessors(rr)
 }
 
